@@ -26,10 +26,12 @@ import ast
 # Control structure types that increase nesting depth
 _CONTROL_STRUCTURES = (
     ast.For,
+    ast.AsyncFor,
     ast.While,
     ast.With,
     ast.AsyncWith,
     ast.Try,
+    ast.TryStar,  # try / except* (exception groups)
     ast.Match,  # one level for the statement, as for a TypeScript switch or a Rust match
 )
 
